@@ -491,7 +491,7 @@ def linearize_segment_contents(part, start, end, state):
 
     other_e = harmony_e + attributes_e + directions_e + barline_e + prints_e
 
-    contents = merge_measure_contents(voices_e, other_e, start.t)
+    contents = merge_measure_contents(voices_e, other_e, start.t, end.t)
 
     return contents
 
@@ -658,7 +658,7 @@ def merge_with_voice(notes, other, measure_start):
     return result, fb_cost
 
 
-def merge_measure_contents(notes, other, measure_start):
+def merge_measure_contents(notes, other, measure_start, measure_end=None):
     merged = {}
     # cost (measured as the total forward/backup jumps needed to merge) all
     # elements in `other` into each voice
@@ -686,6 +686,7 @@ def merge_measure_contents(notes, other, measure_start):
     # merge_voice = sorted(cost.items(), key=itemgetter(1))[0][0]
     result = []
     pos = measure_start
+    max_pos = measure_start
     for i, voice in enumerate(sorted(notes.keys())):
         if i == 0:  # voice == merge_voice:
             elements = merged[voice]
@@ -718,6 +719,15 @@ def merge_measure_contents(notes, other, measure_start):
         # update current position
         if elements:
             pos = elements[-1][0] + (elements[-1][1] or 0)
+            max_pos = max(max_pos, pos)
+
+    if measure_end is not None and max_pos < measure_end:
+        # nothing reaches the end of the measure (segment): move there, so
+        # that a reader does not take the measure to be shorter than it is
+        e = etree.Element("forward")
+        ee = etree.SubElement(e, "duration")
+        ee.text = "{:d}".format(int(measure_end - pos))
+        result.append(e)
 
     return result
 
